@@ -292,9 +292,11 @@ let () =
     | _ -> failwith "fk1");
   reg "fk2" (fun a -> match a with
     | [e; iv; r2; vals] -> show (frun2 (z_of_hex e) (z_of_hex iv) (nat_of_int (int_of_string ("0x" ^ r2))) (zlist_of_string vals))
+                           ^ (if frun_ctxok (z_of_hex e) (z_of_hex iv) (zlist_of_string vals) then " ctxok=1" else " ctxok=0")
     | _ -> failwith "fk2");
   reg "fk3" (fun a -> match a with
     | [e; iv; r2; r3; vals] -> show (frun3 (z_of_hex e) (z_of_hex iv) (nat_of_int (int_of_string ("0x" ^ r2))) (nat_of_int (int_of_string ("0x" ^ r3))) (zlist_of_string vals))
+                               ^ (if frun_ctxok (z_of_hex e) (z_of_hex iv) (zlist_of_string vals) then " ctxok=1" else " ctxok=0")
     | _ -> failwith "fk3");
   reg "dk1" (fun a -> match a with
     | [e; iv; vals] -> show (drun1 (z_of_hex e) (z_of_hex iv) (zlist_of_string vals))
